@@ -899,4 +899,28 @@ fn spawn_async_ao_list_in_task'''),
         ('push-empty-range', HL, '        if !range.is_empty() {', '        if true {'),
         ('gap-end-wrong', HL, '                self.current_byte_index..range.start,', '                self.current_byte_index..range.end,'),
     ],
+    'U36': [
+        ('wait-for-a-job-spec-empties-the-table', 'brush-builtins/src/wait.rs', "                        job.wait().await?;\n", "                        job.wait().await?;\n                        context.shell.jobs_mut().jobs.clear();\n"),
+        ('unknown-job-spec-drops-the-newest-job', 'brush-builtins/src/wait.rs', "                        result = ExecutionExitCode::GeneralError.into();\n", "                        context.shell.jobs_mut().jobs.pop();\n                        result = ExecutionExitCode::GeneralError.into();\n"),
+    ],
+    'U37': [
+        ('tilde-index-unwrapped-again', 'brush-parser/src/word.rs', 'TildeExpr::NthDirFromTopOfDirStack { n: n.parse().or(Err("directory stack index"))?, plus_used', 'TildeExpr::NthDirFromTopOfDirStack { n: n.parse().unwrap(), plus_used'),
+        ('positional-index-unwrapped', 'brush-parser/src/word.rs', "n:$(['1'..='9'](['0'..='9']*)) {? n.parse().or(Err(\"u32\")) }", "n:$(['1'..='9'](['0'..='9']*)) { n.parse().unwrap() }"),
+    ],
+    'U28': [
+        ('exec-forgets-to-install-its-redirections', 'brush-builtins/src/exec.rs', "            context.shell.replace_open_files(fds.into_iter());\n", ""),
+    ],
+    'U9': [
+        ('smallest-prefix-forgets-the-empty-prefix', 'brush-core/src/patterns.rs', "        // The smallest possible prefix is the empty one.\n        if re.is_match(\"\")? {\n            return Ok(s);\n        }\n", ""),
+        ('largest-suffix-scans-from-the-end', 'brush-core/src/patterns.rs', "        for (idx, _) in s.char_indices() {\n            let suffix = &s[idx..];", "        for (idx, _) in s.char_indices().rev() {\n            let suffix = &s[idx..];"),
+        ('largest-prefix-skips-the-whole-string', 'brush-core/src/patterns.rs', "        for (idx, _) in indices {\n            let prefix = &s[0..last_idx];\n            if re.is_match(prefix)? {\n                return Ok(&s[last_idx..]);\n            }\n\n            last_idx = idx;\n        }", "        for (idx, _) in indices {\n            last_idx = idx;\n            let prefix = &s[0..last_idx];\n            if re.is_match(prefix)? {\n                return Ok(&s[last_idx..]);\n            }\n        }"),
+    ],
+    'U21': [
+        ('descending-letter-range-stops-one-short', 'brush-core/src/braceexpansion.rs', "                        let next = char::from_u32((c as u32).checked_sub(increment)?)?;\n                        (next >= end).then_some(next)", "                        let next = char::from_u32((c as u32).checked_sub(increment)?)?;\n                        (next > end).then_some(next)"),
+        ('letter-range-step-loses-its-magnitude', 'brush-core/src/braceexpansion.rs', "            let mut increment = increment.unsigned_abs() as usize;\n            if increment == 0 {\n                increment = 1;\n            }\n\n            if start <= end {\n                Box::new((start..=end).step_by(increment).map(|c| c.to_string()))", "            let mut increment = increment.unsigned_abs() as usize;\n            if increment == 0 {\n                increment = 1;\n            }\n\n            if start <= end {\n                Box::new((start..=end).step_by(increment.min(2)).map(|c| c.to_string()))"),
+    ],
+    'U4o': [
+        ('background-error-surfaces-at-wait', 'brush-core/src/interp.rs', "                let _ = cloned_shell.display_error(&mut stderr, &error);\n                Ok(error.into_result(&cloned_shell))", "                let _ = cloned_shell.display_error(&mut stderr, &error);\n                Err(error)"),
+        ('background-error-reported-as-success', 'brush-core/src/interp.rs', "                let _ = cloned_shell.display_error(&mut stderr, &error);\n                Ok(error.into_result(&cloned_shell))", "                let _ = cloned_shell.display_error(&mut stderr, &error);\n                Ok(ExecutionResult::success())"),
+    ],
 }
